@@ -27,7 +27,7 @@ ASSUMPTIONS = [
     '>= tolerance(rhs) and a recorded finding inside the tolerance band (known_findings.txt)',
 ]
 BOUNDS = {'quick': dict(nvars='<=3', texts=40), 'thorough': dict(nvars='<=4', texts=120)}
-BUDGET = {'quick': 300, 'thorough': 1800}
+BUDGET = {'quick': 1800, 'thorough': 1800}
 
 CMPS = ('<', '<=', '>', '>=', '=', '==', '!=')
 TOL, REL = 1e-15, 1e-15
